@@ -7,7 +7,9 @@ if ! git diff --quiet; then echo "/repo is dirty"; exit 2; fi
 git apply "$dir/patch.diff" || { echo "patch does not apply"; exit 2; }
 ( cd /repo && /venv/bin/python "$dir/demo.py" >/tmp/demo.out 2>&1 ); echo "demo exit with change: $? ($(tail -1 /tmp/demo.out | cut -c1-150))"
 for c in "$pid" "$@"; do
+  cp "/verif/evidence/$c.json" "/tmp/evidence_keep_$c.json" 2>/dev/null   # evidence must describe runs on the unchanged tree
   ( cd /verif && ./check "$c" --tier quick | grep -E "^C[0-9]+ tier|VIOLATION|KNOWN|INFRA" | cut -c1-260 ); echo "check $c exit: $?"
 done
 git -C /repo checkout -- .
+for c in "$pid" "$@"; do [ -f "/tmp/evidence_keep_$c.json" ] && mv "/tmp/evidence_keep_$c.json" "/verif/evidence/$c.json"; done
 ( cd /repo && /venv/bin/python "$dir/demo.py" >/tmp/demo.out 2>&1 ); echo "demo exit without change: $?"
